@@ -188,9 +188,94 @@ func selfValidate(prop string) map[string]any {
 	res["seeded_rules"] = byRule
 	// behaviour-preserving rewrites: the check must stay silent
 	res["preserving"] = preservingRuns(prop, tmpRoot)
+	res["refactorings"] = benignRuns(prop, tmpRoot)
 	res["cross_reference"] = crossReference()
 	res["note"] = "self-validation measures the checker on scratch copies of the current tree; it never raises a VIOLATION"
 	return res
+}
+
+// benignRuns applies the behaviour-preserving refactorings kept under /verif/benign (written by
+// sub-agents for this property, or once seen to make this check fire) to scratch copies and records
+// whether the check stays silent. A refactoring listed in benign/<id>/meta.json with "triage" set is a
+// known false alarm (explained in DESIGN.md) and is tallied separately.
+func benignRuns(prop, tmpRoot string) map[string]any {
+	out := map[string]any{}
+	dir := filepath.Join(*flagVerif, "benign")
+	ents, _ := os.ReadDir(dir)
+	type bmeta struct {
+		Property string   `json:"property"`
+		Alarms   []string `json:"alarms"`
+		Triage   string   `json:"triage"`
+	}
+	var mu sync.Mutex
+	var wg sync.WaitGroup
+	sem := make(chan struct{}, 8)
+	var silent, alarms, known, skipped []string
+	for _, e := range ents {
+		if !e.IsDir() {
+			continue
+		}
+		b, err := os.ReadFile(filepath.Join(dir, e.Name(), "meta.json"))
+		if err != nil {
+			continue
+		}
+		var m bmeta
+		if json.Unmarshal(b, &m) != nil {
+			continue
+		}
+		rel := m.Property == prop
+		for _, a := range m.Alarms {
+			if a == prop {
+				rel = true
+			}
+		}
+		if !rel {
+			continue
+		}
+		wg.Add(1)
+		sem <- struct{}{}
+		go func(id, triage string) {
+			defer wg.Done()
+			defer func() { <-sem }()
+			d := filepath.Join(tmpRoot, "benign-"+id)
+			defer os.RemoveAll(d)
+			if err := copyTree(*flagRepo, d); err != nil {
+				return
+			}
+			ap := exec.Command("git", "apply", filepath.Join(dir, id, "patch.diff"))
+			ap.Dir = d
+			ap.Env = append(os.Environ(), "GIT_CEILING_DIRECTORIES="+filepath.Dir(d))
+			if _, err := ap.CombinedOutput(); err != nil {
+				mu.Lock()
+				skipped = append(skipped, id+" (patch no longer applies)")
+				mu.Unlock()
+				return
+			}
+			f, rules, err := failsOn(d, prop)
+			mu.Lock()
+			defer mu.Unlock()
+			switch {
+			case err != nil:
+				skipped = append(skipped, id+" ("+err.Error()+")")
+			case f && triage != "":
+				known = append(known, id+": "+strings.Join(rules, ","))
+			case f:
+				alarms = append(alarms, id+": "+strings.Join(rules, ","))
+			default:
+				silent = append(silent, id)
+			}
+		}(e.Name(), m.Triage)
+	}
+	wg.Wait()
+	sort.Strings(silent)
+	sort.Strings(alarms)
+	sort.Strings(known)
+	sort.Strings(skipped)
+	out["silent_on"] = silent
+	out["false_alarms"] = alarms
+	out["known_false_alarms"] = known
+	out["not_run"] = skipped
+	return out
 }
 
 // preservingRuns applies each behaviour-preserving rewrite of bin/lzrewrite
